@@ -30,15 +30,24 @@ type point struct {
 	depth int    // struct nesting depth of the field (root's own fields = 1)
 	label string // field path, indices removed
 	alts  []string
+	core  int  // alternatives [0,core) combine with other deviations; [core,n) are boundary values taken one at a time
+	bytes bool // a byte-string / string field (its length can be overridden, see override)
 }
 
 type chooser struct {
 	prefix  []int
 	choices []int
 	pts     []point
+	// override: choice-point index -> length of the byte string / string built there (used to size a value so that
+	// the payload of the enclosing top-level list has an exact length)
+	override map[int]int
 }
 
 func (c *chooser) choose(depth int, label string, alts []string) int {
+	return c.chooseX(depth, label, alts, len(alts))
+}
+
+func (c *chooser) chooseX(depth int, label string, alts []string, core int) int {
 	i := len(c.choices)
 	ch := 0
 	if i < len(c.prefix) {
@@ -48,7 +57,7 @@ func (c *chooser) choose(depth int, label string, alts []string) int {
 		}
 	}
 	c.choices = append(c.choices, ch)
-	c.pts = append(c.pts, point{n: len(alts), depth: depth, label: label, alts: alts})
+	c.pts = append(c.pts, point{n: len(alts), depth: depth, label: label, alts: alts, core: core})
 	return ch
 }
 
@@ -214,6 +223,108 @@ func intDomain(bits int) ([]int64, []string) {
 	})
 }
 
+// boundary exponents of the length / integer encoder: the number of bytes of a big-endian integer changes at 2^(8j),
+// the single-byte form ends at 2^7
+var boundaryExp = []uint{7, 8, 16, 24, 32, 40, 48, 56}
+
+// uintBoundaries: 2^k-1, 2^k, 2^k+1 for every boundary exponent, as far as they fit into bits and are not in have.
+func uintBoundaries(bits int, have []uint64) ([]uint64, []string) {
+	seen := map[uint64]bool{}
+	for _, h := range have {
+		seen[h] = true
+	}
+	var v []uint64
+	var names []string
+	for _, k := range boundaryExp {
+		for d := -1; d <= 1; d++ {
+			if int(k) > bits || (int(k) == bits && d >= 0) {
+				continue
+			}
+			x := uint64(1)<<k + uint64(int64(d))
+			if seen[x] {
+				continue
+			}
+			seen[x] = true
+			v = append(v, x)
+			names = append(names, fmt.Sprintf("2^%d%+d", k, d))
+		}
+	}
+	return v, names
+}
+
+func intBoundaries(bits int, have []int64) ([]int64, []string) {
+	seen := map[int64]bool{}
+	for _, h := range have {
+		seen[h] = true
+	}
+	var v []int64
+	var names []string
+	for _, k := range []uint{8, 16, 32} {
+		for _, sign := range []int64{1, -1} {
+			for d := int64(-1); d <= 1; d++ {
+				if int(k) >= bits-1 {
+					continue
+				}
+				x := sign * (int64(1)<<k + d)
+				if seen[x] {
+					continue
+				}
+				seen[x] = true
+				v = append(v, x)
+				names = append(names, fmt.Sprint(x))
+			}
+		}
+	}
+	return v, names
+}
+
+// bigBoundaries: 2^k-1, 2^k, 2^k+1 around every change of the byte length up to 16 bytes, and the two values whose
+// byte strings are 55 and 56 bytes long (short / long string header).
+func bigBoundaries() ([]*big.Int, []string) {
+	var v []*big.Int
+	var names []string
+	for _, k := range []uint{8, 16, 24, 32, 40, 48, 56, 64, 128} {
+		for d := int64(-1); d <= 1; d++ {
+			if k == 64 && d == -1 {
+				continue // in the core domain
+			}
+			x := new(big.Int).Lsh(big.NewInt(1), k)
+			x.Add(x, big.NewInt(d))
+			v = append(v, x)
+			names = append(names, fmt.Sprintf("2^%d%+d", k, d))
+		}
+	}
+	v = append(v, new(big.Int).Sub(new(big.Int).Lsh(big.NewInt(1), 440), big.NewInt(1)), new(big.Int).Lsh(big.NewInt(1), 440))
+	names = append(names, "55-byte", "56-byte")
+	return v, names
+}
+
+// lengths at which the header of a string / list changes its shape
+var lengthBoundaries = []int{255, 256, 65535, 65536, 65537}
+var hugeLengths = []int{1<<24 - 1, 1 << 24, 1<<24 + 1}
+
+// sizedBytes: n bytes, none of them a single-byte-encodable value when n == 1
+func sizedBytes(n int) []byte {
+	b := make([]byte, n)
+	for i := range b {
+		b[i] = 0x80 | byte(i*7+1)
+	}
+	return b
+}
+
+// contentLenForItem returns the content length n of a string item whose ENCODED size (header + content) is L.
+func contentLenForItem(L int) int {
+	switch {
+	case L <= 56:
+		return L - 1
+	case L <= 2+255:
+		return L - 2
+	case L <= 3+65535:
+		return L - 3
+	}
+	return L - 4
+}
+
 func patternBytes(n int, first byte) []byte {
 	b := make([]byte, n)
 	for i := range b {
@@ -249,21 +360,50 @@ func (g *gen) fill(dst reflect.Value, path string, depth int, live bool) {
 		}
 		return g.c.choose(depth, path, alts)
 	}
+	// pickX: core alternatives first, then boundary alternatives (taken one at a time, never combined)
+	pickX := func(core, ext []string) int {
+		if !live {
+			return 0
+		}
+		return g.c.chooseX(depth, path, append(append([]string{}, core...), ext...), len(core))
+	}
+	// sized: the length override of this byte-string choice point, if any
+	sized := func(idx int) (int, bool) {
+		if !live {
+			return 0, false
+		}
+		g.c.pts[idx].bytes = true
+		n, ok := g.c.override[idx]
+		return n, ok
+	}
+	lenNames := func(ls []int) []string {
+		return strs(len(ls), func(i int) string { return fmt.Sprintf("len%d", ls[i]) })
+	}
 	switch {
 	case t == atomicValType:
 		return
 	case t == bigIntPtrType || (t.Kind() == reflect.Ptr && t.Elem() == bigIntType):
 		alts := append([]string{}, bigNames...)
 		alts = append(alts, "nil")
-		ch := pick(alts)
+		bv, bn := bigBoundaries()
+		ch := pickX(alts, bn)
 		if ch == len(alts)-1 {
 			dst.Set(reflect.Zero(t))
+			return
+		}
+		if ch >= len(alts) {
+			dst.Set(reflect.ValueOf(new(big.Int).Set(bv[ch-len(alts)])).Convert(t))
 			return
 		}
 		dst.Set(reflect.ValueOf(new(big.Int).Set(bigDomain()[ch])).Convert(t))
 		return
 	case t == bigIntType:
-		ch := pick(bigNames)
+		bv, bn := bigBoundaries()
+		ch := pickX(bigNames, bn)
+		if ch >= len(bigNames) {
+			dst.Set(reflect.ValueOf(*new(big.Int).Set(bv[ch-len(bigNames)])))
+			return
+		}
 		dst.Set(reflect.ValueOf(*new(big.Int).Set(bigDomain()[ch])))
 		return
 	case t == timeType:
@@ -280,15 +420,25 @@ func (g *gen) fill(dst reflect.Value, path string, depth int, live bool) {
 		dst.SetBool(pick([]string{"true", "false"}) == 0)
 	case reflect.Uint, reflect.Uint8, reflect.Uint16, reflect.Uint32, reflect.Uint64, reflect.Uintptr:
 		v, names := uintDomain(t.Bits())
-		dst.SetUint(v[pick(names)])
+		xv, xn := uintBoundaries(t.Bits(), v)
+		dst.SetUint(append(v, xv...)[pickX(names, xn)])
 	case reflect.Int, reflect.Int8, reflect.Int16, reflect.Int32, reflect.Int64:
 		v, names := intDomain(t.Bits())
-		dst.SetInt(v[pick(names)])
+		xv, xn := intBoundaries(t.Bits(), v)
+		dst.SetInt(append(v, xv...)[pickX(names, xn)])
 	case reflect.Float32, reflect.Float64:
 		v := []float64{1.5, 0, -2, math.Inf(1)}
 		dst.SetFloat(v[pick([]string{"1.5", "0", "-2", "+Inf"})])
 	case reflect.String:
-		dst.SetString(stringDomain()[pick(stringNames)])
+		idx := len(g.c.choices)
+		ch := pickX(stringNames, lenNames(lengthBoundaries))
+		if n, ok := sized(idx); ok {
+			dst.SetString(string(sizedBytes(n)))
+		} else if ch >= len(stringNames) {
+			dst.SetString(string(sizedBytes(lengthBoundaries[ch-len(stringNames)])))
+		} else {
+			dst.SetString(stringDomain()[ch])
+		}
 	case reflect.Array:
 		n := t.Len()
 		if isByteKind(t.Elem()) {
@@ -328,7 +478,17 @@ func (g *gen) fill(dst reflect.Value, path string, depth int, live bool) {
 	case reflect.Slice:
 		if isByteKind(t.Elem()) {
 			bs := [][]byte{{0xde, 0xad}, nil, {}, {0x00}, {0x7f}, {0x80}, patternBytes(55, 0x21), patternBytes(56, 0x21)}
-			ch := pick([]string{"dead", "nil", "empty", "00", "7f", "80", "len55", "len56"})
+			ext := append([]int{}, lengthBoundaries...)
+			if depth == 0 && path == "[]uint8" {
+				ext = append(ext, hugeLengths...) // the raw byte-string root only: 16 MiB values, once per run
+			}
+			idx := len(g.c.choices)
+			ch := pickX([]string{"dead", "nil", "empty", "00", "7f", "80", "len55", "len56"}, lenNames(ext))
+			if n, ok := sized(idx); ok {
+				bs, ch = append(bs, sizedBytes(n)), len(bs)
+			} else if ch >= len(bs) {
+				bs, ch = append(bs, sizedBytes(ext[ch-len(bs)])), len(bs)
+			}
 			if bs[ch] == nil {
 				dst.Set(reflect.Zero(t))
 			} else {
@@ -348,7 +508,35 @@ func (g *gen) fill(dst reflect.Value, path string, depth int, live bool) {
 		if nilable {
 			alts = append(alts, "one-nil-element")
 		}
-		switch ch := pick(alts); ch {
+		// lists whose PAYLOAD length sits exactly on a header boundary: n one-byte elements (unsigned element types),
+		// or one byte string sized so that header + content is the boundary (lists of byte strings)
+		payloads := append([]int{55, 56}, lengthBoundaries...)
+		var ext []string
+		uintElems := et.Kind() >= reflect.Uint && et.Kind() <= reflect.Uintptr
+		bytesElems := et.Kind() == reflect.Slice && isByteKind(et.Elem())
+		if uintElems || bytesElems {
+			ext = strs(len(payloads), func(i int) string { return fmt.Sprintf("payload%d", payloads[i]) })
+		}
+		ch := pickX(alts, ext)
+		if ch >= len(alts) {
+			L := payloads[ch-len(alts)]
+			if uintElems {
+				sl := reflect.MakeSlice(t, L, L)
+				for i := 0; i < L; i++ {
+					sl.Index(i).SetUint(7)
+				}
+				dst.Set(sl)
+			} else {
+				sl := reflect.MakeSlice(t, 1, 1)
+				b := sizedBytes(contentLenForItem(L))
+				nb := reflect.MakeSlice(et, len(b), len(b))
+				reflect.Copy(nb, reflect.ValueOf(b))
+				sl.Index(0).Set(nb)
+				dst.Set(sl)
+			}
+			return
+		}
+		switch ch {
 		case 0:
 			s := reflect.MakeSlice(t, 1, 1)
 			g.fill(s.Index(0), path+"[]", depth, live)
@@ -469,7 +657,11 @@ var mapKeys = func() [][20]byte {
 
 // buildValue builds one value of root type t under the given choice prefix. The result is a pointer (*t).
 func buildValue(reg *registry, t reflect.Type, prefix []int) (reflect.Value, *chooser, *gen) {
-	c := &chooser{prefix: prefix}
+	return buildValueOv(reg, t, prefix, nil)
+}
+
+func buildValueOv(reg *registry, t reflect.Type, prefix []int, override map[int]int) (reflect.Value, *chooser, *gen) {
+	c := &chooser{prefix: prefix, override: override}
 	g := &gen{c: c, reg: reg, opaque: map[string]bool{}}
 	p := reflect.New(t)
 	g.fill(p.Elem(), shortType(t), 0, true)
@@ -480,16 +672,16 @@ func buildValue(reg *registry, t reflect.Type, prefix []int) (reflect.Value, *ch
 // order (DFS, deviations ordered by position, alternatives ascending). Deviation number j (1-based) is only taken
 // at choice points whose depth is <= depthLimit[j-1] (0 = no limit). shard/nshards split the work by the first
 // deviation (the all-default value belongs to shard 0). visit returns false to stop.
-func explore(reg *registry, t reflect.Type, maxDev int, depthLimit []int, shard, nshards int, visit func(p reflect.Value, c *chooser, ndev int) bool) {
-	var rec func(prefix []int, ndev int, first int) bool
-	rec = func(prefix []int, ndev int, first int) bool {
+func explore(reg *registry, t reflect.Type, maxDev int, depthLimit []int, shard, nshards int, boundaries bool, visit func(p reflect.Value, c *chooser, ndev int) bool) {
+	var rec func(prefix []int, ndev int, first int, leaf bool) bool
+	rec = func(prefix []int, ndev int, first int, leaf bool) bool {
 		p, c, _ := buildValue(reg, t, prefix)
 		if ndev > 0 || shard == 0 {
 			if !visit(p, c, ndev) {
 				return false
 			}
 		}
-		if ndev >= maxDev {
+		if ndev >= maxDev || leaf {
 			return true
 		}
 		lim := 0
@@ -501,7 +693,7 @@ func explore(reg *registry, t reflect.Type, maxDev int, depthLimit []int, shard,
 			if lim > 0 && c.pts[i].depth > lim {
 				continue
 			}
-			for alt := 1; alt < c.pts[i].n; alt++ {
+			for alt := 1; alt < c.pts[i].core; alt++ {
 				if ndev == 0 {
 					k++
 					if (k-1)%nshards != shard {
@@ -511,14 +703,32 @@ func explore(reg *registry, t reflect.Type, maxDev int, depthLimit []int, shard,
 				child := make([]int, i+1)
 				copy(child, c.choices[:i])
 				child[i] = alt
-				if !rec(child, ndev+1, i+1) {
+				if !rec(child, ndev+1, i+1, false) {
 					return false
+				}
+			}
+		}
+		if ndev == 0 && boundaries {
+			// the boundary alternatives (integer and length boundaries of the encoder): every one of them, alone
+			k = 0
+			for i := 0; i < len(c.pts); i++ {
+				for alt := c.pts[i].core; alt < c.pts[i].n; alt++ {
+					k++
+					if (k-1)%nshards != shard {
+						continue
+					}
+					child := make([]int, i+1)
+					copy(child, c.choices[:i])
+					child[i] = alt
+					if !rec(child, 1, i+1, true) {
+						return false
+					}
 				}
 			}
 		}
 		return true
 	}
-	rec(nil, 0, 0)
+	rec(nil, 0, 0, false)
 }
 
 func shortType(t reflect.Type) string { return t.String() }
